@@ -512,12 +512,149 @@ func (x *env) stream() {
 		i, _ := a1.ArcFindIndex(h)
 		x.cmp("afind", fmt.Sprint(i), x.m.Ask("afind "+nbsx.AddrHex(h)))
 	}
+	if n >= 1000 {
+		// every chunk is zstd+dictionary here: the same image is also valid in format versions 1 and 2
+		for _, ver := range []byte{1, 2} {
+			if lg, _ := x.writeLegacy(dir, a1.Name(), len(hs), ver); lg != nil {
+				x.verify(fmt.Sprintf("legacy-archive-v%d", ver), lg, written, len(hs), true)
+				x.e.Rep.Hit(fmt.Sprintf("legacy:zstd-format-version-%d", ver))
+				lg.Close()
+			}
+		}
+	}
 	a2 := convert(a1, "archive-to-archive")
 	if a2 == nil {
 		return
 	}
 	defer a2.Close()
 	x.verify("archive-to-archive", a2, written, len(hs), true)
+}
+
+// legacyImage rewrites a current (format version 3) archive image as the byte-identical image of an
+// older on-disk format version (1 or 2): those store the index length as uint32, so their footer is 4
+// bytes shorter.  Such files stay in a database until they are conjoined or collected.
+func legacyImage(v3 []byte, ver byte) []byte {
+	const footer, verOff = 220, 212
+	fs := len(v3) - footer
+	if fs < 0 || v3[fs] != 0 || v3[fs+1] != 0 || v3[fs+2] != 0 || v3[fs+3] != 0 {
+		return nil
+	}
+	out := append(append([]byte{}, v3[:fs]...), v3[fs+4:]...)
+	out[len(out)-footer+verOff] = ver
+	return out
+}
+
+// writeLegacy stores the legacy image of archive |name| in |dir| under a fresh name and opens it.
+func (x *env) writeLegacy(dir string, name hash.Hash, count int, ver byte) (*nbs.VerifIdxSource, []byte) {
+	v3, err := os.ReadFile(filepath.Join(dir, name.String()+nbs.ArchiveFileSuffix))
+	if err != nil {
+		return nil, nil
+	}
+	img := legacyImage(v3, ver)
+	if img == nil {
+		return nil, nil
+	}
+	ln := nbsx.ContentAddr(img)
+	os.WriteFile(filepath.Join(dir, ln.String()+nbs.ArchiveFileSuffix), img, 0o644)
+	src, err := nbs.VerifIdxOpenFile(dir, ln, uint32(count), x.e.Rng.Bool())
+	if err != nil {
+		x.violate("legacy-archive-open", fmt.Sprintf("cannot open a format version %d archive: %v", ver, err))
+		return nil, nil
+	}
+	return src, img
+}
+
+// legacy: an archive in on-disk format version 2 (snappy spans) read on its own (all read paths incl.
+// full iteration) and as a conjoin source next to a current archive and, sometimes, a table file.
+func (x *env) legacy() {
+	r := x.e.Rng
+	dir := filepath.Join(x.e.Scratch, fmt.Sprintf("lg-%d", x.k.Seed))
+	os.MkdirAll(dir, 0o755)
+	defer os.RemoveAll(dir)
+	union := map[hash.Hash][]byte{}
+	mk := func(max, tag int) ([]hash.Hash, [][]byte) {
+		hs, ds := gen(r, max, 60, tag)
+		var oh []hash.Hash
+		var od [][]byte
+		for i, h := range hs {
+			if _, dup := union[h]; !dup {
+				union[h] = ds[i]
+				oh, od = append(oh, h), append(od, ds[i])
+			}
+		}
+		return oh, od
+	}
+	ha, da := mk(2+x.k.Max, 0)
+	if len(ha) == 0 {
+		return
+	}
+	x.e.Rep.Count(fmt.Sprintf("legacy %d %d", x.k.Seed, x.k.Max), true)
+	na, _, err := nbs.VerifArcWriteSnappy(dir, ha, da)
+	if err != nil {
+		x.violate("archive-write", err.Error())
+		return
+	}
+	leg, img := x.writeLegacy(dir, na, len(ha), 2)
+	if leg == nil {
+		return
+	}
+	defer leg.Close()
+	x.e.Rep.Hit("legacy:format-version-2")
+	wa := map[hash.Hash][]byte{}
+	for i, h := range ha {
+		wa[h] = da[i]
+	}
+	f := leg.ArcFooter()
+	x.cmp("aopen-legacy", fmt.Sprintf("ok %d %d %d %d %d %d", f.FormatVersion, f.ByteSpanCount, f.ChunkCount, f.MetadataSize, f.IndexSize, f.DataSpanLen), x.m.Ask("aopen "+hx.Hex(img)))
+	x.verify("legacy-archive", leg, wa, len(ha), true)
+
+	// conjoin: legacy + current archive (+ table)
+	hb, db := mk(1+x.k.Max/2, 1000)
+	if len(hb) == 0 {
+		return
+	}
+	nb, _, err := nbs.VerifArcWriteSnappy(dir, hb, db)
+	if err != nil {
+		x.violate("archive-write", err.Error())
+		return
+	}
+	cur, err := nbs.VerifIdxOpenFile(dir, nb, uint32(len(hb)), r.Bool())
+	if err != nil {
+		x.violate("archive-open", err.Error())
+		return
+	}
+	defer cur.Close()
+	srcs := []*nbs.VerifIdxSource{leg, cur}
+	total := len(ha) + len(hb)
+	if r.Chance(1, 3) {
+		hc, dc := mk(1+x.k.Max/2, 2000)
+		if len(hc) > 0 {
+			nc, file, err := nbs.VerifIdxWriteTable(hc, dc)
+			if err == nil {
+				os.WriteFile(filepath.Join(dir, nc.String()), file, 0o644)
+				if t, err := nbs.VerifIdxOpenFile(dir, nc, uint32(len(hc)), false); err == nil {
+					defer t.Close()
+					srcs = append(srcs, t)
+					total += len(hc)
+					x.e.Rep.Hit("legacy:conjoin-with-table")
+				} else {
+					for _, h := range hc {
+						delete(union, h)
+					}
+				}
+			}
+		}
+	}
+	if r.Bool() { // the legacy source is not always the first in the list
+		srcs[0], srcs[1] = srcs[1], srcs[0]
+	}
+	cj, err := nbs.VerifIdxConjoin(dir, srcs, r.Bool())
+	if err != nil {
+		x.violate("conjoin-legacy", "ConjoinAll with a format version 2 archive failed: "+err.Error())
+		return
+	}
+	defer cj.Close()
+	x.verify("conjoined-with-legacy-archive", cj, union, total, true)
 }
 
 // leanarc: Lean writes index + footer, Go supplies the spans; the real reader must serve the set.
@@ -587,6 +724,8 @@ func main() {
 				x.stream()
 			case "leanarc":
 				x.leanarc()
+			case "legacy":
+				x.legacy()
 			}
 			return ""
 		}); s != "" {
@@ -634,6 +773,8 @@ func main() {
 			if e.Thorough() && master.Chance(1, 20) {
 				k.Max = 1000 + master.Intn(500)
 			}
+		case 8:
+			k.Kind = "legacy"
 		default:
 			k.Kind = "leanarc"
 		}
